@@ -557,6 +557,38 @@ func c08Scenarios(tier string) []*world.Scenario {
 			}
 		}
 	}
+	// a request LARGER than the 64 KiB read buffer with further arguments behind the big one (RPUSH k <big> t1 t2, MSET k <big>
+	// k2 v2): every single cut inside the last 48 bytes (the later arguments' header lines and payloads) and inside the
+	// first header lines, at the production read-buffer size
+	{
+		sizes := []int{70000, 140000}
+		if !thorough {
+			sizes = []int{100000}
+		}
+		for _, S := range sizes {
+			big := strings.Repeat("0123456789abcdef", S/16+1)[:S]
+			for _, kind := range []string{"rpush", "mset"} {
+				var r Req
+				if kind == "rpush" {
+					r = Req{Kind: "RPUSH", Bytes: world.Cmd("rpush", keysA[1], big, "tail-one", "t2")}
+				} else {
+					r = MSetReq(keysA[1], big, keysB[1], "tail-value")
+				}
+				st := c08stream{fmt.Sprintf("%s-%dB-then-tail-args,get", kind, S), []Req{r, GetReq(keysB[2])}}
+				L := len(r.Bytes)
+				var cuts []int
+				for c := L - 48; c <= L+2; c++ {
+					cuts = append(cuts, c)
+				}
+				cuts = append(cuts, 1, 4, 14, 70000/2, 65536, 65537)
+				for _, c1 := range cuts {
+					sc := c08Scenario(st, []int{c1}, 65536, fmt.Sprintf("cut%d", c1))
+					sc.Family, sc.Horizon, sc.MaxLen, sc.NoVariant = "large-request", 20000, 4<<20, true
+					out = append(out, sc)
+				}
+			}
+		}
+	}
 	// another client died inside a request (its prefix parked in the inbound buffer) before this client's stream arrives
 	{
 		ab := world.Cmd("set", keysA[0], strings.Repeat("A", 34))
